@@ -33,9 +33,25 @@ pub fn run(ctx: &Ctx) -> Report {
     );
     let depth = ctx.tier.pick(5, 7);
     run_worlds(ctx, &mut rep, &worlds(ctx.tier), depth);
+    // the first records arrive simultaneously from several threads
+    let mk = |min: u64, pre: Option<u32>, append: bool| World { append, trig: Trig::OnStartup(min), roller: RollerK::Fixed { base: 0, count: 2, ext: "" }, pre, sizes: vec![], multibyte: false, restart: false };
+    let b = ctx.tier.pick(2usize, 3usize);
+    let mut hs = vec![
+        (RSched { world: mk(1, Some(10), true), threads: 2, per_thread: 2, size: 24, chunks: 2 }, b),
+        (RSched { world: mk(5, Some(4), true), threads: 2, per_thread: 1, size: 24, chunks: 2 }, b),
+        (RSched { world: mk(0, None, true), threads: 3, per_thread: 1, size: 24, chunks: 1 }, 2),
+        (RSched { world: mk(1, Some(10), false), threads: 2, per_thread: 1, size: 24, chunks: 2 }, b),
+    ];
+    if ctx.tier == Tier::Thorough {
+        hs.push((RSched { world: mk(1, Some(10), true), threads: 3, per_thread: 2, size: 24, chunks: 2 }, 2));
+    }
+    run_scheds(ctx, &mut rep, &hs);
     rep
 }
 
 pub fn replay(case: &serde_json::Value) -> Result<(), String> {
+    if case["kind"] == "schedule" {
+        return replay_sched_case(case);
+    }
     replay_world_case(case)
 }
